@@ -1,383 +1,11 @@
 #!/venv/bin/python
-"""Automatic benign twins: apply ONE behaviour-preserving rewrite at a time inside one function and check that the
-property's rules stay silent.  A rule that fires (or loses its anchor) under such a rewrite is keyed on a name or on a
-syntactic shape instead of a role / value.
-
-kinds (default: all):
-  rename    one local variable (with --params also one parameter of a private function) gets a new name
-  cmpflip   one comparison `a < b` becomes `b > a` (also <=, >=, >, ==, !=)
-  ifswap    one `if c: A else: B` becomes `if not c: B else: A`
-  elif      one `elif c:` becomes `else:` + nested `if c:`
-  rettemp   one `return EXPR` becomes `_rt = EXPR; return _rt`
-  hoist     one str/bytes/int literal of the function moves into a module-level constant
-  augassign one `x += <number>` becomes `x = x + <number>` (and -=), plain names only
-  nestif    one `if a and b: S` (no else) becomes `if a:` + nested `if b: S`
-  elseret   one `if c: ...return` followed by statements becomes `if c: ...return  else: <the statements>`
-  while1    one `while True:` becomes `while 1:` (or back)
-  demorgan  one `not (a and b)` / `not (a or b)` in a test is distributed; one `a and b` test becomes `not (not a or not b)`
-  kw2pos    one call of a module-level function passes a keyword argument positionally when the signature allows it
-  ifexp     one `if c: t = A else: t = B` becomes `t = A if c else B`, or the reverse for `t = A if c else B`
-
-usage: twin_probe.py [PROP ...] [--kinds rename,cmpflip,...] [--params] [--jobs N]
-Nothing is written to /repo: every variant is an in-memory overlay.
-"""
-import ast
-import importlib
+"""Command-line front end of selftest/autotwins.py (automatic behaviour-preserving single-site rewrites).
+usage: twin_probe.py [PROP ...] [--kinds rename,cmpflip,...] [--params] [--jobs N]"""
 import os
 import sys
-from concurrent.futures import ProcessPoolExecutor
-
-HERE = os.path.dirname(os.path.dirname(os.path.abspath(__file__)))
-sys.path.insert(0, HERE)
+sys.path.insert(0, os.path.dirname(os.path.dirname(os.path.abspath(__file__))))
 sys.dont_write_bytecode = True
-from sa.index import Program, AnalysisError, REPO    # noqa: E402
-from sa.report import Ctx                            # noqa: E402
-
-PROPFILES = {'C01': ['dictutils', 'urlutils'], 'C02': ['cacheutils'], 'C03': ['cacheutils'], 'C04': ['fileutils'],
-             'C05': ['fileutils'], 'C06': ['urlutils'], 'C07': ['urlutils'], 'C08': ['iterutils'], 'C09': ['iterutils'],
-             'C10': ['queueutils', 'listutils'], 'C11': ['setutils'], 'C12': ['socketutils'], 'C14': ['strutils'],
-             'C15': ['iterutils'], 'C16': ['tbutils'], 'C17': ['dictutils'], 'C18': ['ioutils'], 'C19': ['strutils', 'jsonutils'],
-             'C20': ['cacheutils']}
-
-
-class Ren(ast.NodeTransformer):
-    def __init__(self, old, new, root):
-        self.old, self.new, self.root = old, new, root
-
-    def visit_Name(self, n):
-        if n.id == self.old:
-            n.id = self.new
-        return n
-
-    def visit_arg(self, n):
-        if n.arg == self.old:
-            n.arg = self.new
-        return n
-
-    def _nested(self, n):
-        # a nested function that rebinds the name as its own parameter/local is left alone only if it declares it as a param
-        if n is not self.root and any(a.arg == self.old for a in ast.walk(n.args) if isinstance(a, ast.arg)):
-            return n
-        return self.generic_visit(n)
-
-    visit_FunctionDef = visit_Lambda = _nested
-
-
-def function_nodes(tree):
-    for n in ast.walk(tree):
-        if isinstance(n, ast.FunctionDef):
-            yield n
-
-
-def locals_of(fn, with_params):
-    params = {a.arg for a in ast.walk(fn.args) if isinstance(a, ast.arg)}
-    declared = set()
-    for n in ast.walk(fn):
-        if isinstance(n, (ast.Global, ast.Nonlocal)):
-            declared |= set(n.names)
-    names = set()
-    for n in ast.walk(fn):
-        if isinstance(n, ast.Name) and isinstance(n.ctx, ast.Store):
-            names.add(n.id)
-    names -= declared
-    out = sorted(names - params)
-    if with_params and fn.name.startswith('_') and not (fn.name.startswith('__') and fn.name.endswith('__')):
-        out += sorted(p for p in params if p not in ('self', 'cls'))
-    return out
-
-
-def _fn_source(lines, fn):
-    seg = lines[fn.lineno - 1:fn.end_lineno]
-    return ''.join(l[fn.col_offset:] if l.strip() else l for l in seg)
-
-
-def _splice(src, fn, node, prelude=''):
-    lines = src.splitlines(keepends=True)
-    text = ast.unparse(node)
-    ind = ' ' * fn.col_offset
-    new_lines = [ind + l + '\n' for l in text.splitlines()]
-    out = ''.join(lines[:fn.lineno - 1] + new_lines + lines[fn.end_lineno:])
-    if prelude:
-        # module-level constant: put it after the last top-level import
-        tree = ast.parse(out)
-        last = 0
-        for st in tree.body:
-            if isinstance(st, (ast.Import, ast.ImportFrom)) or (isinstance(st, ast.Expr) and isinstance(st.value, ast.Constant)):
-                last = st.end_lineno
-            elif isinstance(st, ast.Try):
-                last = max(last, st.end_lineno) if any(isinstance(x, (ast.Import, ast.ImportFrom)) for x in ast.walk(st)) else last
-        ol = out.splitlines(keepends=True)
-        out = ''.join(ol[:last] + [prelude + '\n'] + ol[last:])
-    return out
-
-
-def variant(src, fn, old, new):
-    lines = src.splitlines(keepends=True)
-    node = Ren(old, new, fn).visit(ast.parse(_fn_source(lines, fn)))
-    return _splice(src, fn, node)
-
-
-FLIP = {ast.Lt: ast.Gt, ast.Gt: ast.Lt, ast.LtE: ast.GtE, ast.GtE: ast.LtE, ast.Eq: ast.Eq, ast.NotEq: ast.NotEq}
-
-
-def _pure(e):
-    return not any(isinstance(x, (ast.Call, ast.Yield, ast.YieldFrom, ast.Await, ast.NamedExpr)) for x in ast.walk(e))
-
-
-MODFUNCS = {}
-
-
-def _replace_stmt(tree, node, repl):
-    for par in ast.walk(tree):
-        for field in ('body', 'orelse', 'finalbody'):
-            blk = getattr(par, field, None)
-            if isinstance(blk, list) and node in blk:
-                j = blk.index(node)
-                blk[j:j + 1] = repl
-                return True
-        if isinstance(par, ast.Try):
-            for h in par.handlers:
-                if node in h.body:
-                    j = h.body.index(node)
-                    h.body[j:j + 1] = repl
-                    return True
-    return False
-
-
-def shape_variants(src, fn, kinds):
-    """(kind, description, new module source) for every single-site rewrite of the requested kinds in fn."""
-    lines = src.splitlines(keepends=True)
-    fsrc = _fn_source(lines, fn)
-    base = ast.parse(fsrc)
-    sites = []
-    for i, n in enumerate(ast.walk(base)):
-        if 'cmpflip' in kinds and isinstance(n, ast.Compare) and len(n.ops) == 1 and type(n.ops[0]) in FLIP and \
-                _pure(n.left) and _pure(n.comparators[0]):
-            sites.append(('cmpflip', i))
-        if 'ifswap' in kinds and isinstance(n, ast.If) and n.orelse and not (len(n.orelse) == 1 and isinstance(n.orelse[0], ast.If)):
-            sites.append(('ifswap', i))
-        if 'elif' in kinds and isinstance(n, ast.If) and len(n.orelse) == 1 and isinstance(n.orelse[0], ast.If):
-            sites.append(('elif', i))
-        if 'rettemp' in kinds and isinstance(n, ast.Return) and n.value is not None and not isinstance(n.value, (ast.Name, ast.Constant)):
-            sites.append(('rettemp', i))
-        if 'hoist' in kinds and isinstance(n, ast.Constant) and isinstance(n.value, (str, bytes, int)) and \
-                not isinstance(n.value, bool) and n.value not in ('', b'', 0, 1, -1):
-            sites.append(('hoist', i))
-    for i, n in enumerate(ast.walk(base)):
-        if 'augassign' in kinds and isinstance(n, ast.AugAssign) and isinstance(n.target, ast.Name) and isinstance(n.op, (ast.Add, ast.Sub)) \
-                and isinstance(n.value, ast.Constant) and isinstance(n.value.value, (int, float)):
-            sites.append(('augassign', i))
-        if 'nestif' in kinds and isinstance(n, ast.If) and not n.orelse and isinstance(n.test, ast.BoolOp) and isinstance(n.test.op, ast.And):
-            sites.append(('nestif', i))
-        if 'while1' in kinds and isinstance(n, ast.While) and isinstance(n.test, ast.Constant) and n.test.value in (True, 1):
-            sites.append(('while1', i))
-        if 'demorgan' in kinds and isinstance(n, (ast.If, ast.While)) and isinstance(n.test, ast.BoolOp) and all(_pure(v) for v in n.test.values):
-            sites.append(('demorgan', i))
-        if 'elseret' in kinds:
-            for field in ('body', 'orelse', 'finalbody'):
-                blk = getattr(n, field, None)
-                if isinstance(blk, list):
-                    for j, st in enumerate(blk[:-1]):
-                        if isinstance(st, ast.If) and not st.orelse and st.body and isinstance(st.body[-1], (ast.Return, ast.Raise, ast.Continue, ast.Break)):
-                            sites.append(('elseret:%s:%d' % (field, j), i))
-        if 'ifexp' in kinds and isinstance(n, ast.If) and len(n.body) == 1 and len(n.orelse) == 1 and \
-                isinstance(n.body[0], ast.Assign) and isinstance(n.orelse[0], ast.Assign) and \
-                [ast.unparse(t) for t in n.body[0].targets] == [ast.unparse(t) for t in n.orelse[0].targets]:
-            sites.append(('ifexp', i))
-        if 'ifexp' in kinds and isinstance(n, ast.Assign) and isinstance(n.value, ast.IfExp):
-            sites.append(('ifexp-rev', i))
-        if 'kw2pos' in kinds and isinstance(n, ast.Call) and isinstance(n.func, ast.Name) and n.func.id in MODFUNCS and n.keywords:
-            sites.append(('kw2pos', i))
-    # docstrings and f-string parts are not hoistable
-    skip_ids = set()
-    for n in ast.walk(base):
-        if isinstance(n, (ast.FunctionDef, ast.ClassDef, ast.Module)) and n.body and isinstance(n.body[0], ast.Expr) and \
-                isinstance(n.body[0].value, ast.Constant):
-            skip_ids.add(id(n.body[0].value))
-        if isinstance(n, ast.JoinedStr):
-            skip_ids |= {id(v) for v in ast.walk(n) if isinstance(v, ast.Constant)}
-    for kind, idx in sites:
-        tree = ast.parse(fsrc)
-        nodes = list(ast.walk(tree))
-        n = nodes[idx]
-        orig = list(ast.walk(base))[idx]
-        prelude = ''
-        if kind == 'cmpflip':
-            n.left, n.comparators, n.ops = n.comparators[0], [n.left], [FLIP[type(n.ops[0])]()]
-            what = 'line %d: %s' % (fn.lineno + orig.lineno - 1, ast.unparse(orig))
-        elif kind == 'ifswap':
-            n.test = ast.UnaryOp(op=ast.Not(), operand=n.test)
-            n.body, n.orelse = n.orelse, n.body
-            what = 'line %d: if %s' % (fn.lineno + orig.lineno - 1, ast.unparse(orig.test))
-        elif kind == 'elif':
-            what = 'line %d: elif %s' % (fn.lineno + orig.lineno - 1, ast.unparse(orig.orelse[0].test))
-            inner = n.orelse[0]
-            n.orelse = [ast.Pass(), inner]      # a leading `pass` stops unparse from folding it back into elif
-        elif kind == 'rettemp':
-            what = 'line %d: return %s' % (fn.lineno + orig.lineno - 1, ast.unparse(orig.value)[:60])
-            tmp = ast.Assign(targets=[ast.Name(id='_rt_tw', ctx=ast.Store())], value=n.value, lineno=n.lineno)
-            ret = ast.Return(value=ast.Name(id='_rt_tw', ctx=ast.Load()))
-            # replace the statement inside its parent's statement list
-            done = False
-            for par in ast.walk(tree):
-                for field in ('body', 'orelse', 'finalbody'):
-                    blk = getattr(par, field, None)
-                    if isinstance(blk, list) and n in blk:
-                        j = blk.index(n)
-                        blk[j:j + 1] = [tmp, ret]
-                        done = True
-                if isinstance(par, ast.Try):
-                    for h in par.handlers:
-                        if n in h.body:
-                            j = h.body.index(n)
-                            h.body[j:j + 1] = [tmp, ret]
-                            done = True
-            if not done:
-                continue
-        elif kind == 'augassign':
-            what = 'line %d: %s' % (fn.lineno + orig.lineno - 1, ast.unparse(orig))
-            repl = ast.Assign(targets=[ast.Name(id=n.target.id, ctx=ast.Store())],
-                              value=ast.BinOp(left=ast.Name(id=n.target.id, ctx=ast.Load()), op=n.op, right=n.value), lineno=n.lineno)
-            if not _replace_stmt(tree, n, [repl]):
-                continue
-        elif kind == 'nestif':
-            what = 'line %d: if %s' % (fn.lineno + orig.lineno - 1, ast.unparse(orig.test))
-            first, rest = n.test.values[0], n.test.values[1:]
-            inner_test = rest[0] if len(rest) == 1 else ast.BoolOp(op=ast.And(), values=rest)
-            n.body = [ast.If(test=inner_test, body=n.body, orelse=[])]
-            n.test = first
-        elif kind == 'while1':
-            what = 'line %d: while %s' % (fn.lineno + orig.lineno - 1, ast.unparse(orig.test))
-            n.test = ast.Constant(value=1 if n.test.value is True else True)
-        elif kind == 'demorgan':
-            what = 'line %d: %s' % (fn.lineno + orig.lineno - 1, ast.unparse(orig.test))
-            other = ast.Or() if isinstance(n.test.op, ast.And) else ast.And()
-            n.test = ast.UnaryOp(op=ast.Not(), operand=ast.BoolOp(op=other, values=[ast.UnaryOp(op=ast.Not(), operand=v)
-                                                                                      for v in n.test.values]))
-        elif kind.startswith('elseret'):
-            _, field, j = kind.split(':')
-            blk = getattr(n, field)
-            st = blk[int(j)]
-            what = 'line %d: if %s ... then fall through' % (fn.lineno + st.lineno - 1, ast.unparse(st.test)[:50])
-            st.orelse = blk[int(j) + 1:]
-            del blk[int(j) + 1:]
-            kind = 'elseret'
-        elif kind == 'ifexp':
-            what = 'line %d: if %s: assign / else: assign' % (fn.lineno + orig.lineno - 1, ast.unparse(orig.test)[:50])
-            repl = ast.Assign(targets=n.body[0].targets, value=ast.IfExp(test=n.test, body=n.body[0].value, orelse=n.orelse[0].value),
-                              lineno=n.lineno)
-            if not _replace_stmt(tree, n, [repl]):
-                continue
-        elif kind == 'ifexp-rev':
-            what = 'line %d: %s' % (fn.lineno + orig.lineno - 1, ast.unparse(orig)[:60])
-            import copy as _copy
-            a1 = ast.Assign(targets=n.targets, value=n.value.body, lineno=n.lineno)
-            a2 = ast.Assign(targets=_copy.deepcopy(n.targets), value=n.value.orelse, lineno=n.lineno)
-            repl = ast.If(test=n.value.test, body=[a1], orelse=[a2])
-            if not _replace_stmt(tree, n, [repl]):
-                continue
-            kind = 'ifexp'
-        elif kind == 'kw2pos':
-            params = MODFUNCS[n.func.id]
-            npos = len(n.args)
-            if any(isinstance(a, ast.Starred) for a in n.args) or npos >= len(params) or not n.keywords or \
-                    n.keywords[0].arg != params[npos]:
-                continue
-            what = 'line %d: %s(... %s=...)' % (fn.lineno + orig.lineno - 1, n.func.id, n.keywords[0].arg)
-            n.args.append(n.keywords[0].value)
-            del n.keywords[0]
-        elif kind == 'hoist':
-            if id(orig) in skip_ids:
-                continue
-            cname = '_TW_CONST'
-            what = 'line %d: literal %r' % (fn.lineno + orig.lineno - 1, orig.value)
-            prelude = '%s = %r' % (cname, n.value)
-            repl = ast.Name(id=cname, ctx=ast.Load())
-            for par in ast.walk(tree):
-                for field, val in ast.iter_fields(par):
-                    if val is n:
-                        setattr(par, field, repl)
-                    elif isinstance(val, list):
-                        for j, x in enumerate(val):
-                            if x is n:
-                                val[j] = repl
-        ast.fix_missing_locations(tree)
-        try:
-            yield kind, what, _splice(src, fn, tree, prelude)
-        except Exception:
-            continue
-
-
-def failing(prop, overlay):
-    mod = importlib.import_module('props.' + prop)
-    ctx = Ctx(prop, Program(overlay=overlay), tier='quick', quiet=True)
-    try:
-        mod.run(ctx)
-    except AnalysisError as e:
-        return ['ANALYSIS-ERROR ' + str(e)[:160]]
-    except Exception as e:
-        return ['INTERNAL %s %s' % (type(e).__name__, str(e)[:160])]
-    keys = sorted({o.key for o in ctx.failures()})
-    if not keys and ctx.deficits:
-        return ['DEFICIT ' + '; '.join(ctx.deficits)[:200]]
-    return keys
-
-
-def job(args):
-    prop, rel, fname, lineno, old, overlay = args
-    try:
-        ast.parse(overlay[rel])
-    except SyntaxError as e:
-        return prop, rel, fname, lineno, old, ['SKIP variant does not parse: %s' % e]
-    return prop, rel, fname, lineno, old, failing(prop, overlay)
-
-
-def main(argv):
-    with_params = '--params' in argv
-    jobs = 16
-    if '--jobs' in argv:
-        jobs = int(argv[argv.index('--jobs') + 1])
-    kinds = {'rename', 'cmpflip', 'ifswap', 'elif', 'rettemp', 'hoist', 'augassign', 'nestif', 'elseret', 'while1', 'demorgan', 'kw2pos', 'ifexp'}
-    if '--kinds' in argv:
-        kinds = set(argv[argv.index('--kinds') + 1].split(','))
-    props = [a for a in argv if a.startswith('C') and len(a) == 3] or sorted(PROPFILES)
-    todo = []
-    for prop in props:
-        base = failing(prop, None)
-        if base:
-            print(prop, 'baseline is not clean:', base[:2])
-            continue
-        for m in PROPFILES[prop]:
-            rel = 'boltons/%s.py' % m
-            src = open(os.path.join(REPO, rel), encoding='utf-8').read()
-            tree = ast.parse(src)
-            MODFUNCS.clear()
-            for st in tree.body:
-                if isinstance(st, ast.FunctionDef) and not st.args.vararg and not st.args.posonlyargs:
-                    MODFUNCS[st.name] = [a.arg for a in st.args.args]
-            for fn in function_nodes(tree):
-                if 'rename' in kinds:
-                    for old in locals_of(fn, with_params):
-                        try:
-                            v = variant(src, fn, old, old + '_rn')
-                        except Exception as e:
-                            print(prop, rel, fn.name, old, 'SKIP', e)
-                            continue
-                        todo.append((prop, rel, fn.name, fn.lineno, 'rename local `%s`' % old, {rel: v}))
-                for kind, what, v in shape_variants(src, fn, kinds - {'rename'}):
-                    todo.append((prop, rel, fn.name, fn.lineno, '%s %s' % (kind, what), {rel: v}))
-    print('%d variants' % len(todo))
-    noisy = 0
-    with ProcessPoolExecutor(max_workers=jobs) as ex:
-        for prop, rel, fname, lineno, what, res in ex.map(job, todo, chunksize=4):
-            if res and res[0].startswith('SKIP'):
-                continue
-            if res:
-                noisy += 1
-                print('NOISY %s %s:%d %s  %s  -> %s' % (prop, rel, lineno, fname, what, res[0][:170]))
-    print('%d noisy of %d' % (noisy, len(todo)))
-    return 1 if noisy else 0
-
+from selftest.autotwins import main      # noqa: E402
 
 if __name__ == '__main__':
     sys.exit(main(sys.argv[1:]))
